@@ -706,6 +706,12 @@ func (in *Interp) get(fr *frame, v ssa.Value) Value {
 	case *ssa.Const:
 		return in.constValue(x)
 	case *ssa.Global:
+		if x.Pkg != nil && !in.ld.isModulePkg(x.Pkg.Pkg) && !lazyInitPkgs[x.Pkg.Pkg.Path()] && in.runningExtInit == 0 {
+			// package-level state of a library whose initialiser the engine does not run
+			if !benignGlobals[x.Pkg.Pkg.Path()] {
+				in.unsupported("package-level variable of a library outside the model: " + x.String())
+			}
+		}
 		return PtrV{obj: in.global(x)}
 	case *ssa.Function:
 		return FuncV{fn: x}
